@@ -62,4 +62,15 @@ theorem poolNextBody_eq (n ctr : Int) : Pandora.Gen.Locks.poolNextBody n ctr = p
   · rfl
   · congr 2 <;> (simp [ctrAsInt, goWrap, goPow] <;> ((repeat' split) <;> omega))
 
+/-- round 6 (tie inventory): the operations `EnrichRequestWithHeaders` and the `header/date` middleware perform on the request
+being built, read off the regenerated write table — exactly an element assignment into `req.Header` plus an assignment of
+`req.Host` (`Model.C11.copyHdr`: every entry but `Host` is entered into the request's map, `Host` goes to `req.Host`), and
+exactly one `Header.Add` per middleware (`Model.C11.hdrAdd` / `applyMws`). A `Set` instead of `Add`, a write to another
+field, a second write re-open this lemma. -/
+theorem enrich_ops :
+    ((Pandora.Gen.Locks.ammoWrites.filter fun w => w.1 == "components/providers/http/util.EnrichRequestWithHeaders").map
+        fun w => (w.2.1, w.2.2.1, w.2.2.2)) = [("param", "param0.Header[]", "assign"), ("param", "param0.Host", "assign")] ∧
+    ((Pandora.Gen.Locks.ammoWrites.filter fun w => w.1 == "components/providers/http/middleware/headerdate.Middleware.UpdateRequest").map
+        fun w => (w.2.1, w.2.2.1, w.2.2.2)) = [("param", "param0.Header", "call:Header.Add")] := by decide
+
 end Pandora.Bridge.C11Locks
